@@ -177,6 +177,8 @@ def run(chk, prog, tier):
     kinds = dict(ERR.OS_FAIL)
     kinds.update(ERR.internal_summaries(prog))
     C17.check_functions(chk, prog, sorted({loader} | {p[0] for p in pairs} | {"asm_create_bin_file"}), kinds)
+    npair = ERR.pair_rule(chk, prog, sorted({loader} | {p[0] for p in pairs} | {"asm_create_bin_file"}))
+    chk.floor("acquire/release pairs in the file entry points", npair, 3)
     # ---- BIN: the binary file holds exactly [0, offset) ----------------------------------------------------------
     bf = prog.fn("asm_create_bin_file")
     inst = prog.params(bf)[0]["name"]
